@@ -189,5 +189,10 @@ def run_check(prop, tier, level, main, checker_cmd):
         main(rep)
     except P.AnalysisBroken as e:
         rep.broken(str(e))
+    except Exception as e:       # an internal error of the checker is never a verdict: exit 2 unless a rule already established a violation
+        import traceback
+        tb = traceback.extract_tb(e.__traceback__)
+        where = "%s:%d" % (os.path.basename(tb[-1].filename), tb[-1].lineno) if tb else "?"
+        rep.broken("internal error of the checker (%s: %s at %s)" % (type(e).__name__, e, where))
     code = rep.finish()
     sys.exit(code)
